@@ -17,7 +17,9 @@ MSGS = ["plain", "", "with \"quotes\" and \\ back", "é 日本 \U0001F600", "mul
 FIELD_X = [{"name": "x", "alt": "x", "kind": "value", "ty": "u32", "slot": -1, "pre": False}]
 NOMSG = {"present": False, "text": "", "args": []}
 # what the specification expects of the two attributed functions of the driver: spans like any other
-INSTR = [{"op": "instr", "which": "sync", "decl": {"kind": "span", "level": 3, "target": "logbridge", "name": "inst_sync", "fields": FIELD_X, "record": [], "message": NOMSG}}]
+INSTR = [{"op": "instr", "which": "sync", "decl": {"kind": "span", "level": 3, "target": "logbridge", "name": "inst_sync", "fields": FIELD_X, "record": [], "message": NOMSG}},
+         # a future instrumented by hand (`.instrument(span)`), polled once and dropped: entered around the poll and around the drop
+         {"op": "instr", "which": "manual", "decl": {"kind": "span", "level": 3, "target": "logbridge", "name": "manual_fut", "fields": FIELD_X, "record": [], "message": NOMSG, "fut": True}}]
 # (an attributed `async fn` does not instrument its future when the span is disabled, so with no collector it logs creation and close only,
 #  and under log-always the finished future is entered once more when dropped: not used as an oracle)
 
